@@ -16,13 +16,14 @@ ObsQuery(q) == [name |-> q.name, sql |-> q.sql, args |-> q.args]
 Why(rec) ==
     IF rec.outcome # "ok" THEN "generation did not complete: " \o rec.outcome
     ELSE LET expS == ExpectedStatements(rec.itemC, "Item", Tables, Enums) \o ExpectedStatements(rec.orderC, "Order", Tables, Enums)
+                         \o ExpectedGuardStatements(rec.itemG, "Item", Enums)
              expQ == [i \in 1..Len(rec.itemQ) |-> ExpectedQuery(rec.itemQ[i], Tables, Enums, Fields)]
              obsQ == [i \in 1..Len(rec.queries) |-> ObsQuery(rec.queries[i])] IN
          IF \E i \in 1..Len(rec.statements) : \E j \in 1..Len(rec.statements[i]) : rec.statements[i][j] = "_SELECT"
            THEN "an internal directive (select key) reaches the SQL output"
          ELSE IF ~SameBag(expS, rec.statements)
            THEN IF \E i \in 1..Len(expS) : Count(rec.statements, expS[i]) < Count(expS, expS[i])
-                THEN "a custom constraint is missing or not expanded exactly (placeholders, REFERENCES, table names, ALTER TABLE owner)"
+                THEN "a custom constraint or a guard is missing or not expanded exactly (placeholders, REFERENCES, table names, ALTER TABLE owner)"
                 ELSE "the SQL output has a custom statement no comment asks for"
          ELSE IF ~SameBag(expQ, obsQ) THEN "a custom query function differs (placeholder numbering, argument list or types, expanded text)"
          ELSE ""
